@@ -34,6 +34,11 @@ EXPIRES = "2030-01-01T00:00:00Z"
 
 # ------------------------------------------------------------------------------------------------
 # process-state sandbox
+# how long a command carrying the marker TIMEOUT "runs" (set per case by run_case; default: longer than in-toto's
+# default limit of 10 s)
+SCRIPTED_SECONDS = 12.0
+
+
 class WouldPrompt(RuntimeError):
     pass
 
@@ -74,7 +79,7 @@ def sandbox(cwd):
             cmd = [a.replace("TIMEOUT", "true") if isinstance(a, str) else a for a in link_cmd_args]
             link = real_run(name, material_list, product_list, cmd, **kw)
             limit = kw.get("timeout", st.LINK_CMD_EXEC_TIMEOUT)
-            if limit is not None and float(limit) < 12:
+            if limit is not None and float(limit) < SCRIPTED_SECONDS:
                 raise _sp.TimeoutExpired(link_cmd_args, limit)
             return link
         return real_run(name, material_list, product_list, link_cmd_args, **kw)
@@ -319,7 +324,7 @@ def _sha(data):
 
 # ------------------------------------------------------------------------------------------------
 # in-toto-verify
-VERIFY_CLASSES = ["pass", "bad_sig", "expired", "missing_links", "threshold", "rule_violation", "insp_fail",
+VERIFY_CLASSES = ["pass", "bad_sig", "expired", "missing_links", "threshold", "rule_violation", "insp_fail", "sub_insp_slow",
                   "link_tamper", "malformed_layout", "missing_layout", "missing_key", "malformed_key", "wrong_key",
                   "extra_key", "priv_as_pub", "keytypes_mismatch", "linkdir_missing",
                   "usage_nokey", "usage_unknown_opt", "usage_no_layout_opt", "usage_bad_int", "usage_bad_keytype",
@@ -331,7 +336,15 @@ VERIFY_OPTS = {
     "rule_violation": {"rule_violation": True, "_need": ("rule_violation", "insp_rule_violation")},
     "insp_fail": {"insp_fail": True, "_need": ("insp_fail", "insp_timeout")},
     "link_tamper": {"link_variants": ["honest", "edited", "malformed", "replayed_name", "disagree_prod", "sig_keyid"]},
+    # an inspection of a SUBLAYOUT that runs for 7 s under --inspection-timeout 5: the limit given on the command line
+    # holds at every nesting depth, so verification fails (in-toto's default of 10 s would let it pass)
+    "sub_insp_slow": {"insp_fail": True, "p_sub": 0.8, "_pred": "slow_inspection_below_root_only"},
 }
+
+
+def _slow_inspection_below_root_only(scen):
+    dt = [(d, t) for d, t in scen["depth_tags"] if t in ("insp_timeout", "insp_fail")]
+    return bool(dt) and all(t == "insp_timeout" and d >= 1 for d, t in dt)
 
 
 def _owner_names(rng, ks, keyform, n):
@@ -400,13 +413,20 @@ def b_verify(rng, d, p, ks):
     _write(os.path.join(cwd, "product.txt"), "final product\n")
     opts = dict(VERIFY_OPTS.get(cls, {}))
     need = opts.pop("_need", None)
+    pred = {"slow_inspection_below_root_only": _slow_inspection_below_root_only}.get(opts.pop("_pred", None))
     opts.update({"deviate": False, "vary_keys": False, "root_dsse": dsse, "format": p.get("linkfmt", "mixed")})
     env = vscen.Env(rng, d)
     scen = None
-    for _ in range(25):
+    for _ in range(400 if pred else 25):
         scen = vscen.build(random.Random(rng.getrandbits(32)), env, opts, d)
+        if pred:
+            if pred(scen):
+                break
+            continue
         if not need or any(t in scen["tags"] for t in need):
             break
+    if pred and not pred(scen):
+        raise RuntimeError("no scenario of the wanted shape found for class %s" % cls)
     # root layout: re-signed by keys that exist as files in the form under test
     nown = 1 if rng.random() < 0.6 else 2
     owners = _owner_names(rng, ks, keyform, nown)
@@ -526,7 +546,7 @@ def b_verify(rng, d, p, ks):
     elif cls == "bad_sig" and sub == "edited":
         intent = None     # an edit of a "_type" leaf of a step/inspection is normalised away on loading: not a failure
     elif cls in ("bad_sig", "expired", "malformed_layout", "missing_layout", "missing_key", "malformed_key", "wrong_key",
-                 "extra_key", "priv_as_pub", "linkdir_missing"):
+                 "extra_key", "priv_as_pub", "linkdir_missing", "sub_insp_slow"):
         intent = "fail"
     lib = _verify_lib(form, layout_rel, link_dir, gpg_home, timeout if timeout is not None else 10)
     return Spec("verify", argv, usage=usage, intent=intent, lib=lib, cls=cls, keyform=keyform, fmt=_fmt(dsse),
@@ -1204,6 +1224,13 @@ def b_match(rng, d, p, ks):
         recorded = {k: _sha(v) for k, v in files.items() if paths is None or k.split("/")[0] in paths}
         strip = ["src/"]
         recorded = {(k[4:] if k.startswith("src/") else k): v for k, v in recorded.items()}
+    eff = set()
+    if "other_algorithm" in diffs and recorded:
+        # the link records one product under another hash algorithm only: the records are not equal, so it differs
+        import hashlib
+        k = rng.choice(sorted(recorded))
+        recorded[k] = rng.choice([{"sha512": hashlib.sha512(k.encode()).hexdigest()}, {"sha1": hashlib.sha1(k.encode()).hexdigest()}])
+        eff.add("differ")
     link = Link(name="pkg", products=recorded, materials={})
     md = vscen.make_md(link, dsse)
     if p.get("signed"):
@@ -1211,7 +1238,6 @@ def b_match(rng, d, p, ks):
     # (explicit --exclude patterns replace the default ones, so a link inside cwd would count as an artifact)
     link_rel = "../pkg.link" if "exclude" in feats else rng.choice(["../pkg.link", "pkg.0000.link"])
     # local deviations
-    eff = set()
     exclude = None
     tracked = sorted(k for k in files if paths is None or k.split("/")[0] in paths)
     if "differ" in diffs and tracked:
@@ -1370,6 +1396,8 @@ def run_case(case, work, ks, via="main", keep=False):
     """-> record dict (JSON-able)"""
     da, db = os.path.join(work, "A"), os.path.join(work, "B")
     shutil.rmtree(db, ignore_errors=True)
+    global SCRIPTED_SECONDS
+    SCRIPTED_SECONDS = float(case["params"].get("scripted_seconds", 12.0))
     spec = build_case(case, da, ks)
     argv = _subst(spec.argv, ks)
     orc = {"lib": "n/a", "out": "n/a"}
